@@ -171,9 +171,24 @@ pub struct ModelOut {
     pub size_reads: usize,
     pub zp_chosen: usize,
     pub abs_chosen_low_class: usize,
+    pub asserts: Vec<AssertSite>,
+    /// (test name, address of its first instruction, segment index)
+    pub tests: Vec<(String, i64, usize)>,
 }
 
+#[derive(Clone, Debug)]
+pub struct AssertSite {
+    pub pc: i64,
+    pub expr: Expr,
+    pub msg: Option<String>,
+    pub scope: usize,
+    pub file: String,
+    pub stmt: usize,
+}
+
+#[derive(Default)]
 pub struct Options {
+    pub active_test: Option<String>,
     pub default_pc: i64,
     /// model `* = e` in a relocated segment as documented (e is the program counter) when true
     pub align_choices: Vec<bool>,
@@ -196,6 +211,9 @@ struct Walker<'a> {
     size_reads: usize,
     default_pc: i64,
     depth: usize,
+    active_test: Option<String>,
+    asserts: Vec<AssertSite>,
+    tests: Vec<(String, i64, usize)>,
 }
 
 struct WEnv<'w, 'a> {
@@ -772,7 +790,28 @@ impl<'a> Walker<'a> {
                     }
                 }
             }
-            Stmt::Test { .. } | Stmt::Assert { .. } | Stmt::Trace { .. } => {}
+            Stmt::Test { name, body } => {
+                if let (Some(pc), Some(seg)) = (self.target_pc(), self.cur_seg) {
+                    self.tests.push((name.clone(), pc, seg));
+                    if self.active_test.as_deref() == Some(name.as_str()) {
+                        // the body of the active test is emitted in the enclosing scope
+                        self.hoist_macros(body, scope)?;
+                        for st in body {
+                            self.stmt(st, scope)?;
+                        }
+                    }
+                }
+            }
+            Stmt::Assert { e, msg } => {
+                if self.active_test.is_some() {
+                    if let Some(pc) = self.target_pc() {
+                        let (file, stmt) = self.stmt_id(s);
+                        let expr = self.close_vars(e, scope)?;
+                        self.asserts.push(AssertSite { pc, expr, msg: msg.clone(), scope, file, stmt });
+                    }
+                }
+            }
+            Stmt::Trace { .. } => {}
             Stmt::File(_) => return unsupported(".file"),
             Stmt::Raw(_) => return unsupported("raw text"),
         }
@@ -835,6 +874,9 @@ pub fn check_image(prog: &Program, image: &[SegOut], opts: &Options) -> Result<M
         size_reads: 0,
         default_pc: opts.default_pc,
         depth: 0,
+        active_test: opts.active_test.clone(),
+        asserts: vec![],
+        tests: vec![],
     };
     let root = w.new_node(None, "");
     if !has_segdef {
@@ -1040,6 +1082,8 @@ pub fn check_image(prog: &Program, image: &[SegOut], opts: &Options) -> Result<M
     out.segs = w.segs.clone();
     out.sites = w.sites.clone();
     out.labels = labels;
+    out.asserts = w.asserts.clone();
+    out.tests = w.tests.clone();
     out.aligned_aligns = w.aligned_aligns;
     out.size_reads = w.size_reads;
     Ok(out)
@@ -1047,7 +1091,7 @@ pub fn check_image(prog: &Program, image: &[SegOut], opts: &Options) -> Result<M
 
 /// check_image with the `.align`-at-aligned-address ambiguity resolved by trying both readings
 pub fn check_image_all(prog: &Program, image: &[SegOut], default_pc: i64) -> Result<ModelOut, CheckErr> {
-    let first = check_image(prog, image, &Options { default_pc, align_choices: vec![] });
+    let first = check_image(prog, image, &Options { default_pc, align_choices: vec![], active_test: None });
     let k = match &first {
         Ok(m) => return Ok(m.clone()),
         Err(CheckErr::Unsupported(_)) => return first,
@@ -1061,7 +1105,7 @@ pub fn check_image_all(prog: &Program, image: &[SegOut], default_pc: i64) -> Res
     }
     for bits in 1u32..(1 << k) {
         let choices: Vec<bool> = (0..k).map(|i| bits & (1 << i) == 0).collect();
-        if let Ok(m) = check_image(prog, image, &Options { default_pc, align_choices: choices }) {
+        if let Ok(m) = check_image(prog, image, &Options { default_pc, align_choices: choices, active_test: None }) {
             return Ok(m);
         }
     }
